@@ -41,6 +41,10 @@ class Cancel(object):
         op = rec["op"]
         s = rec["after"]
         hist = lambda: common.history_summary(_R(drv))[-30:]  # noqa
+        if op["op"] == "req" and op["status"] in ("canceling", "canceled") and rec["rejected"] and rec["before"] in ("running", "pausing", "paused", "resuming"):
+            # the statement quantifies over cancel requested from running, pausing, paused, resuming: a rejected
+            # request would leave the workflow running on
+            raise Violation("cancel-request-rejected", {"from": rec["before"], "reason": rec.get("reject_msg"), "definition": drv.defn, "history": hist()})
         if op["op"] == "req" and op["status"] in ("canceling", "canceled") and not rec["rejected"] and not self.requested:
             self.requested = True
             self.inflight_at = len(drv.inflight)
